@@ -1,11 +1,17 @@
 mod battery;
 mod codec;
 mod exec;
+mod findings;
 mod gen;
 mod gensrc;
+mod lane_c;
+mod lane_t;
+mod lanes;
 mod model;
 mod ops;
 mod prng;
+mod shrink;
+mod supervisor;
 
 use std::collections::BTreeMap;
 
@@ -13,45 +19,7 @@ fn arg_val(args: &[String], name: &str) -> Option<String> {
     args.iter().position(|a| a == name).and_then(|i| args.get(i + 1).cloned())
 }
 
-pub fn make_run(seed: u64, focus: gensrc::Focus) -> (ops::Init, gensrc::GenSource, String) {
-    let mut rng = prng::Rng::new(seed);
-    let swarm = gensrc::Swarm::draw(&mut rng, focus);
-    let weights: [u32; 6] = match focus {
-        gensrc::Focus::Faults => [20, 40, 15, 5, 15, 5],
-        gensrc::Focus::DeleteWalk => [15, 45, 30, 8, 1, 1],
-        _ => [20, 45, 20, 8, 5, 2],
-    };
-    let mut cfg = gen::gen_packet_cfg(&mut rng, &weights);
-    if focus == gensrc::Focus::DeleteWalk {
-        cfg.unique_tags = true;
-        cfg.max_section = 12;
-    }
-    let init = match rng.below(12) {
-        0 => ops::Init::Empty {
-            tid: rng.next_u64() as u16,
-        },
-        1 => {
-            let n = gen::gen_ldh_name(&mut rng);
-            ops::Init::Query {
-                name_text: String::from_utf8_lossy(&n.text()).into_owned(),
-                qtype: *rng.pick(&[1u16, 28, 15, 2]),
-                tid: rng.next_u64() as u16,
-            }
-        }
-        _ => {
-            let m = gen::gen_msg(&mut rng, &cfg);
-            let bytes = gen::encode_with(&m, &cfg, rng.next_u64());
-            ops::Init::Bytes(bytes)
-        }
-    };
-    let shape = match &init {
-        ops::Init::Bytes(_) => format!("{}/{}/{:?}", cfg.shape.name(), cfg.density, cfg.opt),
-        ops::Init::Empty { .. } => "synth-empty".into(),
-        ops::Init::Query { .. } => "synth-query".into(),
-    };
-    let src = gensrc::GenSource::new(rng.next_u64(), swarm);
-    (init, src, shape)
-}
+use lanes::make_run;
 
 fn main() {
     // anyhow captures a backtrace per error when RUST_BACKTRACE is set: ~100x slowdown, no use here
@@ -118,6 +86,25 @@ fn main() {
             for (k, (n, d, sc)) in &sigs {
                 println!("\n== {} x{}\n   {}\n   {}", k, n, d, &sc[..sc.len().min(700)]);
             }
+        }
+        "check" => {
+            let prop = arg_val(&args, "--prop").expect("--prop");
+            let tier = arg_val(&args, "--tier").unwrap_or_else(|| "quick".into());
+            let seed: u64 = arg_val(&args, "--seed").and_then(|s| s.parse().ok()).unwrap_or(1);
+            std::process::exit(supervisor::cmd_check(&prop, &tier, seed));
+        }
+        "worker" => {
+            let prop = arg_val(&args, "--prop").expect("--prop");
+            let seed: u64 = arg_val(&args, "--seed").and_then(|s| s.parse().ok()).unwrap_or(1);
+            let from: u64 = arg_val(&args, "--from").and_then(|s| s.parse().ok()).unwrap_or(0);
+            let to: u64 = arg_val(&args, "--to").and_then(|s| s.parse().ok()).unwrap_or(0);
+            supervisor::cmd_worker(&prop, seed, from, to, args.iter().any(|a| a == "--hashes"));
+        }
+        "minimise" => {
+            std::process::exit(supervisor::cmd_minimise(&args[2], &args[3]));
+        }
+        "replay" => {
+            std::process::exit(supervisor::cmd_replay(&args[2], args.iter().any(|a| a == "--verbose")));
         }
         "replay-json" => {
             let sc: ops::Scenario = serde_json::from_str(&args[2]).expect("scenario json");
